@@ -194,9 +194,9 @@ theorem convertbits_nopad (f t : Nat) (ht : 0 < t) (data zs : List Nat) (k : Nat
 /-- the two conversions `encode` and `decode` perform, composed: 8→5 with padding then 5→8 without is the identity
 on byte strings of any length -/
 theorem convertbits_roundtrip_nat (bs : List Nat) (hb : ∀ b ∈ bs, b < 2 ^ 8) :
-    ∃ out, convertbits bs 8 5 true = some out ∧ (∀ d ∈ out, d < 32) ∧ 5 * out.length < 8 * bs.length + 5 ∧
-      convertbits out 5 8 false = some bs := by
+    ∃ out, convertbits bs 8 5 true = some out ∧ (∀ d ∈ out, d < 32) ∧ 8 * bs.length ≤ 5 * out.length ∧
+      5 * out.length < 8 * bs.length + 5 ∧ convertbits out 5 8 false = some bs := by
   obtain ⟨out, k, e, hk, hv, hl, ho⟩ := convertbits_pad 8 5 (by decide) bs hb
-  exact ⟨out, e, ho, by omega, convertbits_nopad 5 8 (by decide) out bs k ho hb hk (by omega) hv hl⟩
+  exact ⟨out, e, ho, by omega, by omega, convertbits_nopad 5 8 (by decide) out bs k ho hb hk (by omega) hv hl⟩
 
 end Pyc.Bech32
